@@ -149,6 +149,8 @@ class System(world.World):
         self.ever_queryable = set()     # (height, tip hash) the index has been at
         self.calls_log = []             # Notifications call sequence (for C20's binding)
         self.mp_touched_log = []        # the touched set of every mempool report
+        # mempool reports whose height label is not the daemon height their listing was made at
+        self.mislabelled_reports = []
         self._wrap_notifications()
 
     def _wrap_notifications(self):
@@ -164,6 +166,10 @@ class System(world.World):
             self.calls_log.append(('mp', height, len(touched), self.db.state.height,
                                    len(self.daemon.best) - 1))
             self.mp_touched_log.append(frozenset(touched))
+            listed_at = getattr(self.daemon, 'last_listing_height', None)
+            if listed_at is not None and listed_at != height:
+                self.mislabelled_reports.append(dict(label=height, listing_made_at=listed_at,
+                                                     db_height=self.db.state.height))
             return await orig_mp(touched, height)
         n.on_block, n.on_mempool = on_block, on_mempool
 
